@@ -22,8 +22,70 @@ def hook(g, rng):
     return g.mixin_program()
 
 
+# ---- the property itself, on the real compiler only: a program with calls vs the same program with every call replaced, by hand, by the
+# body of the mixin with the arguments written in place of the parameters.  Bodies use arithmetic, built-in functions of the parameters,
+# strings with @{param}, nested rules and @media: constructs outside the evaluator model.
+BODY_DECLS = ['width: (ceil({a}) * 2)', 'height: {a} + 1', 'margin: round({a}) {b}', 'padding: ({a} * 2) ({b} + 1)', 'top: floor({a} / 2)', 'left: -{a}',
+              'content: "v{ia}w"', 'border: {b} solid', 'line-height: percentage(0.5) {a}', 'font-size: increment({a})', 'z-index: {b}', 'min-width: ({a} + {b}) * 2',
+              'max-width: ceil({a} + 0.5)']
+ARGS = ['1.5px', '3.5px', '2', '10px', '7.25em', '0.5', '12pt', '4']
+
+
+def inline_program(rng):
+    nm = rng.randint(1, 2)
+    defs = []
+    for i in range(nm):
+        decls = rng.sample(BODY_DECLS, rng.randint(1, 3))
+        nested = rng.random() < 0.4
+        media = rng.random() < 0.25
+        defs.append({'name': '.mx%d' % i, 'decls': decls, 'nested': rng.choice(['.in', '&:hover', '> .k']) if nested else None,
+                     'nested_decl': rng.choice(BODY_DECLS), 'media': media, 'media_decl': rng.choice(BODY_DECLS)})
+
+    def body(d, a, b, ia):
+        f = lambda s: s.format(a=a, b=b, ia=ia)
+        out = ''.join('  %s;\n' % f(x) for x in d['decls'])
+        if d['nested']:
+            out += '  %s { %s; }\n' % (d['nested'], f(d['nested_decl']))
+        if d['media']:
+            out += '  @media print { %s; }\n' % f(d['media_decl'])
+        return out
+    with_calls, inlined = '', ''
+    for d in defs:
+        with_calls += '%s(@a; @b) {\n%s}\n' % (d['name'], body(d, '@a', '@b', '@{a}'))
+    ncall = rng.randint(2, 4)
+    for c in range(ncall):
+        d = rng.choice(defs)
+        a, b = rng.choice(ARGS), rng.choice(ARGS)
+        own = 'color: red;\n' if rng.random() < 0.5 else ''
+        sep = rng.choice([';', ','])
+        with_calls += '.call%d {\n%s  %s(%s%s %s);\n}\n' % (c, own, d['name'], a, sep, b)
+        inlined += '.call%d {\n%s%s}\n' % (c, own, body(d, a, b, a))
+    if rng.random() < 0.5:           # definitions after the calls
+        lines = with_calls.split('}\n')
+    return with_calls, inlined
+
+
 def run(ctx):
-    return P.run_sheets(ctx, 5, FEATURES, 150, 4000, depth=2, all_opts=False, wild=False, nontrivial=nontrivial, gen_hook=hook)
+    import random
+    from .. import impl, sheetcases as SC
+    out = P.run_sheets(ctx, 5, FEATURES, 150, 4000, depth=2, all_opts=False, wild=False, nontrivial=nontrivial, gen_hook=hook)
+    rng = random.Random(ctx['seed'] * 1000003 + 505)
+    n = (80 if ctx['tier'] == 'quick' else 2000) * ctx.get('mult', 1)
+    progs = [inline_program(rng) for _ in range(n)]
+    opts = [rng.choice(SC.ALL_OPTS) for _ in progs]
+    with impl.Pool() as pool:
+        a = pool.run([{'kind': 'compile', 'text': p[0], 'opts': SC.impl_opts(o)} for p, o in zip(progs, opts)])
+        b = pool.run([{'kind': 'compile', 'text': p[1], 'opts': SC.impl_opts(o)} for p, o in zip(progs, opts)])
+    skipped = 0
+    for (wc, inl), o, x, y in zip(progs, opts, a, b):
+        out['evaluations'] += 1
+        if y.get('r') != 'ok':
+            skipped += 1            # the hand-inlined text itself is not accepted (not a statement about calls)
+            continue
+        if x.get('r') != 'ok' or x['css'] != y['css']:
+            out['spec_mismatch'].append({'input': {'text': wc, 'inlined': inl, 'opts': o}, 'impl': x, 'spec': {'the hand-inlined program compiles to': y}, 'classes': []})
+    out.setdefault('distribution', {})['inline_oracle'] = {'programs': len(progs), 'inlined_text_rejected': skipped}
+    return out
 
 
 replay = P.replay
